@@ -7,7 +7,7 @@ import (
 	"errors"
 	"fmt"
 	"io"
-	"math"
+	"math/big"
 	"sort"
 	"strconv"
 	"strings"
@@ -377,7 +377,10 @@ intLiteral
 	{
 		// remove separator "_"s
 		intStr := strings.Replace($1.Literal, "_", "", -1)
-		n, _ := strconv.ParseInt(intStr, 10, 64)
+		n, err := strconv.ParseInt(intStr, 10, 64)
+		if err != nil {
+			yylex.Error(err.Error())
+		}
 		$$ = &ast.IntLiteral{
 			Token: $1.Literal,
 			Value: n,
@@ -390,7 +393,10 @@ intLiteral
 		lit := strings.Replace($1.Literal, "_", "", -1)
 		// remove prefix "0x"
 		intStr := lit[2:]
-		n, _ := strconv.ParseInt(intStr, 16, 64)
+		n, err := strconv.ParseInt(intStr, 16, 64)
+		if err != nil {
+			yylex.Error(err.Error())
+		}
 		$$ = &ast.IntLiteral{
 			Token: $1.Literal,
 			Value: n,
@@ -403,7 +409,10 @@ intLiteral
 		lit := strings.Replace($1.Literal, "_", "", -1)
 		// remove prefix "0o"
 		intStr := lit[2:]
-		n, _ := strconv.ParseInt(intStr, 8, 64)
+		n, err := strconv.ParseInt(intStr, 8, 64)
+		if err != nil {
+			yylex.Error(err.Error())
+		}
 		$$ = &ast.IntLiteral{
 			Token: $1.Literal,
 			Value: n,
@@ -416,7 +425,10 @@ intLiteral
 		lit := strings.Replace($1.Literal, "_", "", -1)
 		// remove prefix "0b"
 		intStr := lit[2:]
-		n, _ := strconv.ParseInt(intStr, 2, 64)
+		n, err := strconv.ParseInt(intStr, 2, 64)
+		if err != nil {
+			yylex.Error(err.Error())
+		}
 		$$ = &ast.IntLiteral{
 			Token: $1.Literal,
 			Value: n,
@@ -429,13 +441,13 @@ intLiteral
 		lit := strings.Replace($1.Literal, "_", "", -1)
 		// NOTE: ToLower is nesessary (to split by both e and E)
 		toks := strings.Split(strings.ToLower(lit), "e")
-		// NOTE: cast float to deal with minus exp (i.e. `100e-2 == 1`)
-		val, _ := strconv.ParseFloat(toks[0], 64)
-		// NOTE: cannot use ParseInt (math.Pow requires float)
-		exp, _ := strconv.ParseFloat(toks[1], 64)
+		n, err := expIntValue(toks[0], toks[1])
+		if err != nil {
+			yylex.Error(err.Error())
+		}
 		$$ = &ast.IntLiteral{
 			Token: $1.Literal,
-			Value: int64(val * math.Pow(10, exp)),
+			Value: n,
 			Src: yylex.(*Lexer).Source,
 		}
 	}
@@ -457,12 +469,13 @@ floatLiteral
 		// remove separator "_"s
 		lit := strings.Replace($1.Literal, "_", "", -1)
 		// NOTE: ToLower is nesessary (to split by both e and E)
-		toks := strings.Split(strings.ToLower(lit), "e")
-		val, _ := strconv.ParseFloat(toks[0], 64)
-		exp, _ := strconv.ParseFloat(toks[1], 64)
+		n, err := strconv.ParseFloat(lit, 64)
+		if err != nil {
+			yylex.Error(err.Error())
+		}
 		$$ = &ast.FloatLiteral{
 			Token: $1.Literal,
-			Value: float64(val * math.Pow(10, exp)),
+			Value: n,
 			Src: yylex.(*Lexer).Source,
 		}
 	} 
@@ -1144,7 +1157,10 @@ strLiteral
 	{
 		// unquote escape sequences here
 		// NOTE: backquotes are unwraped in Unquote
-		unquoted, _ := strconv.Unquote($1.Literal)
+		unquoted, err := strconv.Unquote($1.Literal)
+		if err != nil {
+			yylex.Error("invalid string literal: " + err.Error())
+		}
 		$$ = &ast.StrLiteral{
 			Token: $1.Literal,
 			Value: unquoted,
@@ -1246,7 +1262,10 @@ embeddedStr
 	{
 		// unquote escape sequences here
 		// NOTE: doublequotes are unwraped in Unquote
-		unquoted, _ := strconv.Unquote("\""+$2.Literal[1:])
+		unquoted, err := strconv.Unquote("\""+$2.Literal[1:])
+		if err != nil {
+			yylex.Error("invalid string literal: " + err.Error())
+		}
 		$$ = &ast.EmbeddedStr{
 			Token: $1.Token,
 			Former: $1,
@@ -1260,7 +1279,10 @@ formerStrPiece
 	{
 		// unquote escape sequences here
 		// NOTE: doublequotes are unwraped in Unquote
-		unquoted, _ := strconv.Unquote("\""+$2.Literal[1:len($2.Literal)-2]+"\"")
+		unquoted, err := strconv.Unquote("\""+$2.Literal[1:len($2.Literal)-2]+"\"")
+		if err != nil {
+			yylex.Error("invalid string literal: " + err.Error())
+		}
 		$$ = &ast.FormerStrPiece{
 			Token: $1.Token,
 			Former: $1,
@@ -1272,7 +1294,10 @@ formerStrPiece
 	{
 		// unquote escape sequences here
 		// NOTE: doublequotes are unwraped in Unquote
-		unquoted, _ := strconv.Unquote($1.Literal[:len($1.Literal)-2]+"\"")
+		unquoted, err := strconv.Unquote($1.Literal[:len($1.Literal)-2]+"\"")
+		if err != nil {
+			yylex.Error("invalid string literal: " + err.Error())
+		}
 		$$ = &ast.FormerStrPiece{
 			Token: $1.Literal,
 			Former: nil,
@@ -2102,6 +2127,38 @@ comma
 	}
 
 %%
+
+// expIntValue calculates int literal value in exponential form (like `12e3`).
+func expIntValue(mantissa, exponent string) (int64, error) {
+	m, ok := new(big.Int).SetString(mantissa, 10)
+	if !ok {
+		return 0, errors.New("invalid int literal")
+	}
+	e, err := strconv.ParseInt(exponent, 10, 64)
+	if err != nil {
+		return 0, err
+	}
+
+	// NOTE: any int64 is less than 1e19
+	if m.Sign() != 0 && e > 19 {
+		return 0, errors.New("int literal out of range")
+	}
+	if e < -19 {
+		return 0, nil
+	}
+
+	if e >= 0 {
+		m.Mul(m, new(big.Int).Exp(big.NewInt(10), big.NewInt(e), nil))
+	} else {
+		// NOTE: fractions are rounded down (i.e. `15e-1 == 1`)
+		m.Quo(m, new(big.Int).Exp(big.NewInt(10), big.NewInt(-e), nil))
+	}
+
+	if !m.IsInt64() {
+		return 0, errors.New("int literal out of range")
+	}
+	return m.Int64(), nil
+}
 
 func Parse(src *Reader) (*ast.Program, error) {	
 	lexer := NewLexer(src)
